@@ -179,7 +179,8 @@ func (c RawConfiguration) handleCorrectableCall(ctx context.Context, corr *Corre
 			}
 			replies[r.nid] = r.msg
 			if resp, rlevel, quorum = state.data.QuorumFunction(state.data.Message, replies); quorum {
-				corr.set(resp, rlevel, nil, true)
+				// published levels never decrease, also not with the final reply
+				corr.set(resp, max(rlevel, clevel), nil, true)
 				return
 			}
 			if rlevel > clevel {
